@@ -307,6 +307,59 @@ pub fn run(ctx: &Ctx) -> i32 {
                 ev.sample(J::obj(vec![("fst", J::A(kv.iter().map(|(k, v)| J::A(vec![J::bytes(k), J::U(*v)])).collect())), ("bounds", J::A(bounds.iter().take(12).map(|b| J::bytes(b)).collect())), ("kinds", J::s("all (none|ge|gt) x (none|le|lt) combinations"))]));
             }
         }
+        // part 1b: the small universe behind a LONG common prefix (31..65 bytes, around the sizes of machine words and inline
+        // buffers): keys and both bounds share the prefix; bounds also end inside the prefix and diverge from it at its last bytes
+        {
+            let nlp = ctx.tier.pick(1200, 12_000);
+            for i in 0..nlp {
+                if i % n != shard {
+                    continue;
+                }
+                let mut r = Rng::new(ctx.seed, 0x10b6 + i as u64);
+                let plen = *r.pick(&[31usize, 32, 33, 40, 63, 64, 65]);
+                let prefix: Vec<u8> = (0..plen).map(|j| b"https://example.org/articles/2024/long/common/prefix/of/the/keys/x"[j % 66]).collect();
+                let mask = 1 + r.below(nmask - 1);
+                let keys: Vec<Vec<u8>> = gen::subset(&u, mask).into_iter().map(|k| [&prefix[..], &k[..]].concat()).collect();
+                let kv = gen::assign(keys, [1usize, 2, 4, 5][i % 4], &mut r);
+                let bytes = match guard(|| build::build(Front::MapInsert, &kv)) {
+                    Ok(Ok(b)) => b,
+                    _ => {
+                        ev.violate("build-error", "cannot build".into(), J::Null);
+                        continue;
+                    }
+                };
+                let mut bounds: Vec<Vec<u8>> = bounds_for(&kv, &u, &mut r).into_iter().filter(|b| b.len() >= plen || b.len() < 4).collect();
+                for b in u.iter().take(9) {
+                    bounds.push([&prefix[..], &b[..]].concat());
+                }
+                // inside the prefix, and leaving it at its last bytes
+                bounds.push(prefix[..plen - 1].to_vec());
+                bounds.push(prefix.clone());
+                for d in [1usize, 2].iter() {
+                    let mut b = prefix.clone();
+                    b[plen - d] = b[plen - d].wrapping_add(1);
+                    bounds.push(b.clone());
+                    b.extend_from_slice(b"a");
+                    bounds.push(b);
+                    let mut b = prefix.clone();
+                    b[plen - d] = b[plen - d].wrapping_sub(1);
+                    b.extend_from_slice(b"b");
+                    bounds.push(b);
+                }
+                bounds.sort();
+                bounds.dedup();
+                if bounds.len() > 26 {
+                    // keep it to a few hundred bound pairs per FST
+                    let keep: Vec<Vec<u8>> = bounds.iter().enumerate().filter(|(j, _)| (j + i) % ((bounds.len() + 25) / 26) == 0).map(|(_, b)| b.clone()).collect();
+                    bounds = keep;
+                }
+                ev.fps.insert(crate::rng::fnv_u64(0x10b6, i as u64));
+                let before = ev.evaluations;
+                all_queries(&bytes, &kv, &bounds, false, &mut r, ev, &mut hooks);
+                ev.distinct_extra += ev.evaluations - before;
+                ev.count("fsts:small-universe-behind-a-long-common-prefix");
+            }
+        }
         // part 2: deep random maps over 3 symbols, bounds = keys / prefixes / +-1 mutations
         let ndeep = ctx.tier.pick(400, 6000);
         for i in 0..ndeep {
